@@ -17,6 +17,12 @@ func init() {
 		}
 		panic(engineErr("crypto/rand.Read into %T", a[0]))
 	})
+	reg("bytes.TrimSpace", func(ex *Exec, fn *ssa.Function, a []Value) Value {
+		return BytesV{T: trimSpaceTerm(ex.bytesTerm(a[0]))}
+	})
+	reg("strings.TrimSpace", func(ex *Exec, fn *ssa.Function, a []Value) Value {
+		return trimSpaceTerm(a[0].(*Term))
+	})
 	reg("math/big.NewInt", func(ex *Exec, fn *ssa.Function, a []Value) Value {
 		o := ex.newOpaque("bigint")
 		o.Attrs["v"] = a[0]
